@@ -719,6 +719,8 @@ class BufferAsyncCalls(Generic[T]):
                 async for i in iterable:
                     inputs.add(i)
             except BaseException:  # noqa
+                if _cancelling(unknown=False):
+                    raise  # This task itself is being cancelled
                 logger.exception("Failed to get args from: %r", iterable)
 
         # Get first element, block infinitely until one appears
@@ -745,6 +747,8 @@ class BufferAsyncCalls(Generic[T]):
             try:
                 await _load_inputs(await self._getting)
             except (aio.TimeoutError, aio.CancelledError):
+                if _cancelling(unknown=False):
+                    raise  # Not a flush request, e.g. loop shutdown
                 if await self._run_func(inputs):
                     # Delivered, don't let another thread clearing the
                     # event for a new arg cause these to be sent again
@@ -767,6 +771,8 @@ class BufferAsyncCalls(Generic[T]):
             if inputs:  # Could be empty if all empty iterators
                 await self.func(inputs)
         except BaseException as e:  # noqa
+            if _cancelling(unknown=False):
+                raise  # This task itself is being cancelled
             logging.exception("Failed to run %s, retrying", self.func)
             return False
         else:
